@@ -33,6 +33,7 @@ if os.path.realpath(REPO) != '/repo':
         os.symlink(os.path.join(ROOT, 'harness', 'src'), os.path.join(HARNESS, 'src'))
 OUT = os.path.join(ROOT, 'out')
 NPROC = min(16, os.cpu_count() or 4)
+sys.setrecursionlimit(100000)
 
 sys.path.insert(0, os.path.join(ROOT, 'lib'))
 import sexp  # noqa: E402
